@@ -76,7 +76,7 @@ static const struct fn fns[] = {
   {"mpc_smod_eq", S_C}, {"mpc_mod_eq", S_C}, {"mpc_rot_eq", S_C}, {"mpc_flip_eq", S_C},
 };
 
-static void call (const struct fn *f, mpc_t rc, mpc_t c1, mpc_t c2, mpf_t g)
+static void call (const struct fn *f, mpc_t rc, mpc_t c1, mpc_t c2, mpf_ptr g)
 {
   const char *n = f->name;
 #define IS(x) (!strcmp (n, x))
@@ -126,9 +126,11 @@ static const struct pat pats1c[] = { {"c", 0, 0, -1} };      /* op= forms: c is 
 static const struct pat pats1r[] = { {"rc", 0, -1, -1} };    /* set_ui */
 static const struct pat patsf[] = { {"f,c", -1, 1, -1} };    /* smod/mod: destination is the mpf */
 
-static void one (const struct fn *f, const struct pat *p, int pi, unsigned long prec)
+/* fov: partial-overlap survey, the mpf argument is a component of an mpc argument:
+ * 0 none, 1 f = Re(rc), 2 f = Im(rc), 3 f = Re(c), 4 f = Im(c) */
+static void one (const struct fn *f, const struct pat *p, int pi, unsigned long prec, int fov)
 {
-  mpc_t o[3]; mpf_t g; int i, pass;
+  mpc_t o[3]; mpf_t g; int i, pass; mpf_ptr gp = g; char gname[32] = "F1";
   static const char *re_n[3] = { "RcRe", "C1Re", "C2Re" }, *im_n[3] = { "RcIm", "C1Im", "C2Im" };
   for (pass = 0; pass < 2; pass++)      /* pass 0 warms the thread-local cache, pass 1 is logged */
     {
@@ -145,8 +147,13 @@ static void one (const struct fn *f, const struct pat *p, int pi, unsigned long 
           known[nknown] = mpc_Im (o[i]); known_name[nknown++] = im_n[i];
         }
       known[nknown] = g; known_name[nknown++] = "F1";
+      {
+        __mpc_struct *orc = o[p->rc < 0 ? 0 : p->rc], *oc1 = o[p->c1 < 0 ? 1 : p->c1];
+        gp = fov == 1 ? mpc_Re (orc) : fov == 2 ? mpc_Im (orc) : fov == 3 ? mpc_Re (oc1) : fov == 4 ? mpc_Im (oc1) : g;
+        snprintf (gname, sizeof gname, "%s", nm (gp));
+      }
       tr_on = pass;
-      call (f, o[p->rc < 0 ? 0 : p->rc], o[p->c1 < 0 ? 1 : p->c1], o[p->c2 < 0 ? 2 : p->c2], g);
+      call (f, o[p->rc < 0 ? 0 : p->rc], o[p->c1 < 0 ? 1 : p->c1], o[p->c2 < 0 ? 2 : p->c2], gp);
       tr_on = 0;
       for (i = 0; i < 3; i++) { __gmpf_clear (mpc_Re (o[i])); __gmpf_clear (mpc_Im (o[i])); }
       __gmpf_clear (g);
@@ -168,8 +175,16 @@ static void one (const struct fn *f, const struct pat *p, int pi, unsigned long 
         snprintf (name, sizeof name, "%s_p%d", f->name, pi);
         snprintf (spec, sizeof spec, "spec_%s", f->name);
       }
-    printf ("%s|%s|%s|%s|mkargs (RcRe, RcIm) (%s, %s) (%s, %s) F1|%s\n", name, f->name, p->desc, spec,
-            re_n[c1], im_n[c1], re_n[c2], im_n[c2], buf);
+    if (fov)
+      {
+        char nn[128]; static const char *fd[5] = { "", "f=Re(rc)", "f=Im(rc)", "f=Re(c)", "f=Im(c)" };
+        snprintf (nn, sizeof nn, "ov_%s_f%s", name, gname);
+        printf ("%s|%s|%s;%s|%s|mkargs (RcRe, RcIm) (%s, %s) (%s, %s) %s|%s\n", nn, f->name, p->desc, fd[fov], spec,
+                re_n[c1], im_n[c1], re_n[c2], im_n[c2], gname, buf);
+      }
+    else
+      printf ("%s|%s|%s|%s|mkargs (RcRe, RcIm) (%s, %s) (%s, %s) F1|%s\n", name, f->name, p->desc, spec,
+              re_n[c1], im_n[c1], re_n[c2], im_n[c2], buf);
   }
 }
 
@@ -188,7 +203,17 @@ int main (int argc, char **argv)
         case S_CUU: ps = pats1r; np = 1; break;
         default: ps = pats2; np = 2;
         }
-      for (i = 0; i < np; i++) one (f, &ps[i], i, prec);
+      for (i = 0; i < np; i++) one (f, &ps[i], i, prec, 0);
+      if (argc > 2 && !strcmp (argv[2], "overlap"))
+        {
+          /* survey only (not obligations): the mpf argument overlapping a component of an mpc argument */
+          int v;
+          if (f->sig == S_CCF || f->sig == S_CFC)
+            for (i = 0; i < np; i++)
+              for (v = 1; v <= (ps[i].c1 == ps[i].rc ? 2 : 4); v++) one (f, &ps[i], i, prec, v);
+          if (f->sig == S_FC)
+            for (v = 3; v <= 4; v++) one (f, &ps[0], 0, prec, v);
+        }
     }
   return 0;
 }
